@@ -128,6 +128,7 @@ def run(chk):
     chk.traces += len(states)
     chk.mark("plan-replay")
     sweep(chk, rng, nrng, thorough)
+    forms_agree(chk, nrng)
     return chk.finish(
         rule="cases = states of MC_C16 (function of the plan table, units of its arguments) executed with seeded random arrays, plus the "
              "covariance sweep (function x argument families x re-expression) over everything pint handles; distinct by (function, units); "
@@ -212,6 +213,23 @@ def sweep(chk, rng, nrng, thorough):
     case("copyto", ["L", "L"], lambda q: (np.copyto(q[0], q[1]), q[0])[1])
     case("copyto-where", ["L", "L"], lambda q: (np.copyto(q[0], q[1], where=np.array([True, False, True, False])), q[0])[1])
     case("meshgrid", ["L", "T"], lambda q: np.meshgrid(q[0], q[1]))
+    # bare tolerances are in the units of the first operand
+    # (the first operand is kept in metres, the second - the same values shifted by 3 cm - is re-expressed)
+    case("isclose-atol", ["L"], lambda q: np.isclose(q[0].to("m"), q[0] + Q(0.03, "m"), atol=0.05, rtol=0))
+    case("isclose-atol-tight", ["L"], lambda q: np.isclose(q[0].to("m"), q[0] + Q(0.03, "m"), atol=0.01, rtol=0))
+    case("allclose-atol", ["L"], lambda q: np.allclose(q[0].to("m"), q[0] + Q(0.03, "m"), atol=0.05, rtol=0))
+    case("isclose-atol-positional", ["L"], lambda q: np.isclose(q[0].to("m"), q[0] + Q(0.03, "m"), 0, 0.05))
+    case("isclose-atol-quantity", ["L", "L", "L"], lambda q: np.isclose(q[0], q[0].to(q[1].units) + Q(0.03, "m"), atol=Q(0.05, "m").to(q[2].units), rtol=0))
+    # positional and keyword forms of optional arguments mean the same
+    for nm in ["sum", "prod", "nanprod", "mean", "std", "var", "max", "cumsum", "cumprod", "median", "ptp"]:
+        fam = "N" if "prod" in nm else "L"
+        case(nm + "-axis-positional", [fam], (lambda nm: lambda q: getattr(np, nm)(np.reshape(q[0], (2, 2)), 1))(nm))
+        case(nm + "-axis-keyword", [fam], (lambda nm: lambda q: getattr(np, nm)(np.reshape(q[0], (2, 2)), axis=1))(nm))
+    case("prod-axis-positional-L", ["L"], lambda q: np.prod(np.reshape(q[0], (2, 2)), 1))
+    case("prod-axis-keyword-L", ["L"], lambda q: np.prod(np.reshape(q[0], (2, 2)), axis=0))
+    case("prod-L", ["L"], lambda q: np.prod(q[0]))
+    case("method-prod-axis", ["L"], lambda q: np.reshape(q[0], (2, 2)).prod(1))
+    case("method-sum-axis", ["L"], lambda q: np.reshape(q[0], (2, 2)).sum(1))
     case("method-sum", ["L"], lambda q: q[0].sum())
     case("method-std", ["L"], lambda q: q[0].std())
     case("method-clip", ["L", "L"], lambda q: q[0].clip(q[1].min(), None))
@@ -299,6 +317,62 @@ def sweep(chk, rng, nrng, thorough):
             pass
         except Exception as e:
             chk.diverge({"clause": "offset-wrong-error", "function": nm, "exc": type(e).__name__}, {"function": nm})
+
+
+def forms_agree(chk, nrng):
+    """the same call written with a positional or a keyword optional argument, as a function or as an ndarray method, gives the same
+    quantity or the same refusal - for multiplicative units and for offset units alike; and out-of-place functions leave their input
+    arrays untouched in every registry mode (repeating the call gives the same answer)."""
+    import numpy as np
+    import pint
+    for mode in ({}, {"autoconvert_offset_to_baseunit": True}):
+        ureg = pint.UnitRegistry(**mode)
+        Q = ureg.Quantity
+        for unit in ("meter", "degC", "delta_degC", "kelvin"):
+            a = nrng.uniform(1.0, 9.0, size=(2, 3))
+
+            def outcome(f):
+                x = Q(a.copy(), unit)
+                try:
+                    with np.errstate(all="ignore"):
+                        r = f(x)
+                    if not np.array_equal(x.magnitude, a):
+                        return ("input-modified",)
+                    return ("ok", np.asarray(getattr(r, "magnitude", r)).round(9).tolist(), str(getattr(r, "units", "")))
+                except Exception as e:
+                    return ("raises", type(e).__name__)
+            pairs = []
+            for nm in ("sum", "cumsum", "std", "var", "mean", "prod", "max", "min", "ptp", "cumprod"):
+                pairs.append((nm, "function-positional-axis / function-keyword-axis", (lambda nm: lambda x: getattr(np, nm)(x, 1))(nm), (lambda nm: lambda x: getattr(np, nm)(x, axis=1))(nm)))
+                if hasattr(np.ndarray, nm):
+                    pairs.append((nm, "function / method", (lambda nm: lambda x: getattr(np, nm)(x))(nm), (lambda nm: lambda x: getattr(x, nm)())(nm)))
+                    pairs.append((nm, "function-axis / method-axis", (lambda nm: lambda x: getattr(np, nm)(x, axis=0))(nm), (lambda nm: lambda x: getattr(x, nm)(0))(nm)))
+            for nm, what, f, g in pairs:
+                chk.case(("forms", tuple(mode), unit, nm, what))
+                o1, o2 = outcome(f), outcome(g)
+                if "input-modified" in (o1[0], o2[0]):
+                    chk.diverge({"clause": "input-modified", "function": nm, "forms": what}, {"unit": unit, "mode": mode})
+                elif o1 != o2:
+                    chk.diverge({"clause": "forms-disagree", "function": nm, "forms": what, "offset": unit == "degC"}, {"unit": unit, "mode": mode, "first": repr(o1)[:200], "second": repr(o2)[:200]})
+        # out-of-place binary functions with an offset-unit array: operands untouched, the call repeatable
+        for nm, mk in (("dot", lambda x, y: np.dot(x, y)), ("cross", lambda x, y: np.cross(x, y)), ("correlate", lambda x, y: np.correlate(x, y)),
+                       ("trapezoid", lambda x, y: np.trapezoid(x, x=y)), ("multiply", lambda x, y: np.multiply(x, y)), ("subtract", lambda x, y: np.subtract(x, y)),
+                       ("to_base_units", lambda x, y: x.to_base_units()), ("to_root_units", lambda x, y: x.to_root_units()), ("to", lambda x, y: x.to("kelvin"))):
+            a, b = nrng.uniform(1.0, 9.0, size=(3,)), np.sort(nrng.uniform(1.0, 9.0, size=(3,)))
+            x, y = Q(a.copy(), "degC"), Q(b.copy(), "meter" if nm != "subtract" else "degC")
+            chk.case(("offset-array-untouched", tuple(mode), nm))
+            outs = []
+            for _ in range(2):
+                try:
+                    with np.errstate(all="ignore"):
+                        r = mk(x, y)
+                    outs.append(("ok", np.asarray(getattr(r, "magnitude", r)).round(9).tolist(), str(getattr(r, "units", ""))))
+                except Exception as e:
+                    outs.append(("raises", type(e).__name__))
+            if not np.array_equal(x.magnitude, a) or not np.array_equal(y.magnitude, b):
+                chk.diverge({"clause": "input-modified", "function": nm, "autoconvert": bool(mode)}, {"function": nm, "mode": mode, "before": a.tolist(), "after": np.asarray(x.magnitude).tolist()})
+            elif outs[0] != outs[1]:
+                chk.diverge({"clause": "not-repeatable", "function": nm, "autoconvert": bool(mode)}, {"function": nm, "mode": mode, "first": repr(outs[0])[:200], "second": repr(outs[1])[:200]})
 
 
 def replay(chk, rec):
